@@ -656,30 +656,52 @@ def _dualquat(run):
 
 
 # --------------------------------------------------------------------------- routing (R15 / R13)
+WRONG_FORMS = {
+    # near-misses that are definitely wrong, by description keyword -> [(pattern, message)]
+    'composition multiplies left then right': [
+        ('left.__class__(left._op2(right, lambda x, y: y @ x), check=False)', 'the composition lambda multiplies right @ left: operands are composed in reverse order'),
+        ('left.__class__(right._op2(left, lambda x, y: x @ y), check=False)', 'operands are handed to the helper in reverse order')],
+    'division composes with the inverse of the right operand': [
+        ('left.__class__(left._op2(right, lambda x, y: x @ y), check=False)', 'division composes with the right operand itself, not with its inverse'),
+        ('left.__class__(left._op2(right.inv(), lambda x, y: y @ x), check=False)', 'X / Y is computed as Y^-1 X instead of X Y^-1'),
+        ('left.__class__(left.inv()._op2(right, lambda x, y: x @ y), check=False)', 'the LEFT operand is inverted')],
+    'q1 / q2 = q1 * conj(q2)': [
+        ('UnitQuaternion(left.binop(right, lambda x, y: qqmul(conj(x), y)))', 'the left operand is conjugated instead of the right one'),
+        ('UnitQuaternion(left.binop(right, lambda x, y: qqmul(x, y)))', 'the right operand is not conjugated: this is the product, not the quotient'),
+        ('UnitQuaternion(left.binop(right, lambda x, y: qqmul(conj(y), x)))', 'conj(y) multiplies on the left: q2^-1 q1 instead of q1 q2^-1')],
+    'twist inverse is negation': [('self.__class__([t for t in self.data])', 'inverse returns the twist itself')],
+}
+
+
 def check_routes(run, routes, rule='R15'):
-    """routes: list of (function key, description, [accepted canonical patterns for the return / some statement], where)
-    where = 'return' (every value return matches one pattern) or 'any' (some expression in the body matches)."""
+    """routes: list of (function key, description, [accepted canonical patterns], where).
+    where = 'return': every value return matches one accepted pattern; 'any': some expression in the body does.
+    A recognised near-miss (WRONG_FORMS) is a VIOLATION; any other shape is an ANALYSIS-ERROR (unrecognised form)."""
     for key, desc, pats, where in routes:
         f = run.prog.func(key)
         fi = FuncInfo.of(f)
+        wrong = WRONG_FORMS.get(desc, [])
+        exprs = []
         if where == 'return':
-            rets = [r for r in own_returns(f.node) if r.value is not None]
-            bad = []
-            for r in rets:
-                e = canon(fi, r.value)
-                if not any(matches(p, e) is not None for p in pats):
-                    bad.append(r)
-            if not rets:
+            exprs = [(r, canon(fi, r.value)) for r in own_returns(f.node) if r.value is not None]
+            bad = [(r, e) for (r, e) in exprs if not any(matches(p, e) is not None for p in pats)]
+            if not exprs:
                 run.error('%s: %s has no value return' % (rule, key))
-            elif bad:
-                run.violation(rule, key, desc, 'return value %s is not of the required form %s' % (src(bad[0].value, 70), pats[0]),
-                              f=f, node=bad[0])
-            else:
+                continue
+            if not bad:
                 run.holds(rule, key, desc, 'every return has the form %s' % pats[0], f=f)
+                continue
+            r, e = bad[0]
+            hit = [m for (p, m) in wrong if matches(p, e) is not None]
+            if hit:
+                run.violation(rule, key, desc, hit[0] + ': ' + src(r.value, 70), f=f, node=r)
+            else:
+                run.error('%s: %s: return %s has none of the recognised forms for "%s" (%s)' % (rule, key, src(r.value, 70), desc, pats[0]))
         else:
             found = False
+            hit = None
             for n in own_walk(f.node):
-                if isinstance(n, ast.expr):
+                if isinstance(n, ast.expr) and isinstance(n, ast.Call):
                     try:
                         e = canon(fi, n)
                     except Exception:
@@ -687,10 +709,15 @@ def check_routes(run, routes, rule='R15'):
                     if any(matches(p, e) is not None for p in pats):
                         found = True
                         break
+                    for (p, m) in wrong:
+                        if matches(p, e) is not None:
+                            hit = (m, n)
             if found:
                 run.holds(rule, key, desc, 'contains %s' % pats[0], f=f)
+            elif hit:
+                run.violation(rule, key, desc, hit[0] + ': ' + src(hit[1], 70), f=f, node=hit[1])
             else:
-                run.violation(rule, key, desc, 'no expression of the required form %s' % pats[0], f=f)
+                run.error('%s: %s: no expression of a recognised form for "%s" (%s)' % (rule, key, desc, pats[0]))
 
 
 ROUTES_C12 = [
@@ -711,6 +738,16 @@ ROUTES_C12 = [
 import copy as _copy
 
 
+class _StripNorm(ast.NodeTransformer):
+    """getvector(x, ...) is the identity on the abstract vector (its forms/dimension are R10's subject)"""
+
+    def visit_Call(self, n):
+        self.generic_visit(n)
+        if isinstance(n.func, ast.Name) and n.func.id == 'getvector' and n.args:
+            return n.args[0]
+        return n
+
+
 class _Subst(ast.NodeTransformer):
     def __init__(self, env):
         self.env = env
@@ -722,57 +759,86 @@ class _Subst(ast.NodeTransformer):
 
 
 def sl_eval(cx, stmts=None, env=None, keep_params=True):
-    """Symbolic evaluation of straight-line code: returns list of (Return node, canonical value expression with all
-    locals substituted by their defining expressions in program order).  `if` statements whose bodies only raise are
-    skipped; other branching makes the names assigned inside unknown; `if/else` at the end with returns is followed."""
-    env = dict(env or {})
+    """Symbolic evaluation by path enumeration over structured code without loops: returns a list of
+    (Return node, canonical value expression with every local substituted by its defining expression along that path).
+    `if` arms that only raise are skipped; other `if/else` statements fork the environment."""
     out = []
-    stmts = body_nodoc(cx.f.node) if stmts is None else stmts
-    for st in stmts:
-        if isinstance(st, ast.Assign) and len(st.targets) == 1:
-            v = _Subst(env).visit(canon(cx.fi, st.value, inline=False))
-            t = st.targets[0]
-            if isinstance(t, ast.Name):
-                env[t.id] = v
-            elif isinstance(t, (ast.Tuple, ast.List)) and isinstance(v, (ast.Tuple, ast.List)) and len(t.elts) == len(v.elts):
-                for a, b in zip(t.elts, v.elts):
-                    if isinstance(a, ast.Name):
-                        env[a.id] = b
-            elif isinstance(t, (ast.Tuple, ast.List)):
-                for i, a in enumerate(t.elts):
-                    if isinstance(a, ast.Name):
-                        env[a.id] = ast.Subscript(value=_copy.deepcopy(v), slice=ast.Constant(value=i), ctx=ast.Load())
-            else:
-                # subscript store: x[..] = v  -> x becomes opaque (tables with stores are handled separately)
-                for y in ast.walk(t):
-                    if isinstance(y, ast.Name):
-                        env.pop(y.id, None)
-        elif isinstance(st, ast.Return):
-            if st.value is not None:
-                out.append((st, _Subst(env).visit(canon(cx.fi, st.value, inline=False))))
-            return out
-        elif isinstance(st, ast.If):
-            from ..astutil import ends_in_raise
-            if ends_in_raise(st.body) and not st.orelse:
-                continue
-            # follow both arms independently when they end in return (tail dispatch)
-            a = sl_eval(cx, st.body, env)
-            b = sl_eval(cx, st.orelse, env) if st.orelse else []
-            out += a + b
-            if (a and st.body and isinstance(st.body[-1], ast.Return)) and (not st.orelse or (b and isinstance(st.orelse[-1], ast.Return))):
-                if st.orelse:
-                    return out
-                continue
-            for y in ast.walk(st):
-                if isinstance(y, ast.Name) and isinstance(y.ctx, ast.Store):
-                    env.pop(y.id, None)
-        elif isinstance(st, (ast.Expr, ast.Pass, ast.Assert)):
-            continue
+
+    def assign(env, st):
+        v = _Subst(env).visit(canon(cx.fi, st.value, inline=False))
+        t = st.targets[0]
+        env = dict(env)
+        if isinstance(t, ast.Name):
+            env[t.id] = v
+        elif isinstance(t, (ast.Tuple, ast.List)) and isinstance(v, (ast.Tuple, ast.List)) and len(t.elts) == len(v.elts):
+            for a, b in zip(t.elts, v.elts):
+                if isinstance(a, ast.Name):
+                    env[a.id] = b
+        elif isinstance(t, (ast.Tuple, ast.List)):
+            for i, a in enumerate(t.elts):
+                if isinstance(a, ast.Name):
+                    env[a.id] = ast.Subscript(value=_copy.deepcopy(v), slice=ast.Constant(value=i), ctx=ast.Load())
         else:
-            for y in ast.walk(st):
-                if isinstance(y, ast.Name) and isinstance(y.ctx, ast.Store):
+            for y in ast.walk(t):
+                if isinstance(y, ast.Name):
                     env.pop(y.id, None)
-    return out
+        return env
+
+    def run(stmts, envs, depth=0):
+        """-> list of environments that fall through the statement list"""
+        from ..astutil import ends_in_raise
+        for st in stmts:
+            if not envs:
+                return []
+            if isinstance(st, ast.Assign) and len(st.targets) == 1:
+                envs = [assign(e, st) for e in envs]
+            elif isinstance(st, ast.AugAssign):
+                for e in envs:
+                    for y in ast.walk(st.target):
+                        if isinstance(y, ast.Name):
+                            e.pop(y.id, None)
+            elif isinstance(st, ast.Return):
+                if st.value is not None:
+                    for e in envs:
+                        out.append((st, _Subst(e).visit(canon(cx.fi, st.value, inline=False))))
+                return []
+            elif isinstance(st, ast.Raise):
+                return []
+            elif isinstance(st, ast.If):
+                if ends_in_raise(st.body) and not st.orelse:
+                    continue
+                nxt = []
+                if len(envs) > 16 or depth > 6:
+                    # too many paths: give up on precision for names assigned inside
+                    for e in envs:
+                        for y in ast.walk(st):
+                            if isinstance(y, ast.Name) and isinstance(y.ctx, ast.Store):
+                                e.pop(y.id, None)
+                    continue
+                nxt += run(st.body, [dict(e) for e in envs], depth + 1)
+                nxt += run(st.orelse, [dict(e) for e in envs], depth + 1) if st.orelse else [dict(e) for e in envs]
+                envs = nxt
+            elif isinstance(st, (ast.Expr, ast.Pass, ast.Assert, ast.Import, ast.ImportFrom)):
+                continue
+            else:
+                for e in envs:
+                    for y in ast.walk(st):
+                        if isinstance(y, ast.Name) and isinstance(y.ctx, ast.Store):
+                            e.pop(y.id, None)
+        return envs
+
+    stmts = body_nodoc(cx.f.node) if stmts is None else stmts
+    run(stmts, [dict(env or {})])
+    # de-duplicate identical (return, expression) pairs
+    seen = set()
+    res = []
+    for (r, e) in out:
+        e = _StripNorm().visit(e)
+        k = (id(r), ast.dump(e))
+        if k not in seen:
+            seen.add(k)
+            res.append((r, e))
+    return res
 
 
 # =========================================================================== C01 / C05 / C14 tables
@@ -944,19 +1010,22 @@ def tables_frames(run):
     main = [r for r in rets if matches('eye(__)', r[1]) is None]
     nm = Normaliser(rename=cx.rename)
     nm.scalars = {'P1', cx.pname(1)}
-    if len(main) != 1:
-        run.error('R16: rodrigues: expected one non-trivial return, found %d' % len(main))
-    else:
+    if not main:
+        run.error('R16: rodrigues: no non-trivial return')
+    for (r, e) in main:
         try:
-            g = nm.poly(main[0][1])
-            K = 'skew(P0)'
+            g = nm.poly(e)
             wn = Normaliser()
             wn.scalars = {'P1'}
-            w = wn.poly(parse_expr('eye(%s.shape[0]) + sin(P1) * %s + (1.0 - cos(P1)) * %s @ %s' % (K, K, K, K)))
-            if g == w:
-                run.holds(RULE, cx.f.key, 'Rodrigues formula', 'I + sin(theta) K + (1 - cos(theta)) K K with K = skew(w)', f=cx.f, node=main[0][0])
+            ws = []
+            # theta given: axis = w, angle = theta ; theta omitted: (w, theta) = unitvec_norm(w)
+            for K, th in (('skew(P0)', 'P1'), ('skew(unitvec_norm(P0)[0])', 'unitvec_norm(P0)[1]')):
+                ws.append(wn.poly(parse_expr('eye(%s.shape[0]) + sin(%s) * %s + (1.0 - cos(%s)) * %s @ %s' % (K, th, K, th, K, K))))
+            if g in ws:
+                run.holds(RULE, cx.f.key, 'Rodrigues formula' + (' (angle from the vector norm)' if g == ws[1] else ''),
+                          'I + sin(theta) K + (1 - cos(theta)) K K with K = skew(w)', f=cx.f, node=r)
             else:
-                run.violation(RULE, cx.f.key, 'Rodrigues formula', 'rodrigues returns %s; the definition is %s' % (g, w), f=cx.f, node=main[0][0])
+                run.violation(RULE, cx.f.key, 'Rodrigues formula', 'rodrigues returns %s; the definition is %s' % (g, ws[0]), f=cx.f, node=r)
         except Unrecognised as ex:
             run.error('R16: rodrigues unrecognised: %s' % ex)
     # angvec2r: axis through unitvec, same formula
@@ -1080,7 +1149,13 @@ def _trexp(run):
             run.error('R16: %s: no `rt2tr(R, V @ t)` return' % key)
             continue
         blk = _enclosing_block(f.node, target)
-        rets = [e for (r, e) in sl_eval(cx, blk) if r is target]
+        # the closed form is the straight-line tail starting at `t = tw[0:n]`; tw and theta stay symbolic
+        start = 0
+        for i, st in enumerate(blk):
+            if isinstance(st, ast.Assign) and matches('tw[0:%d]' % n, st.value) is not None:
+                start = i
+                break
+        rets = [e for (r, e) in sl_eval(cx, blk[start:]) if r is target]
         if len(rets) != 1:
             run.error('R16: %s: cannot evaluate the se(%d) branch symbolically' % (key, n))
             continue
@@ -1101,3 +1176,120 @@ def _trexp(run):
                 run.holds(RULE, f.key, 'exp ' + nm_, 'agrees with the closed form', f=f, node=target)
             else:
                 run.violation(RULE, f.key, 'exp ' + nm_, '%s is %s; the closed form is %s' % (nm_, g, w), f=f, node=target)
+
+
+# =========================================================================== C02: inverses, composition, powers
+def _assign_table(cx, var):
+    """slice-assignment table of `var` in the function -> (alloc canonical AST, {slice: Poly})"""
+    alloc = None
+    tbl = {}
+    for st in own_walk(cx.f.node):
+        if isinstance(st, ast.Assign) and len(st.targets) == 1:
+            t = st.targets[0]
+            if isinstance(t, ast.Name) and t.id == var:
+                alloc = canon(cx.fi, st.value, inline=False)
+            elif isinstance(t, ast.Subscript) and isinstance(t.value, ast.Name) and t.value.id == var:
+                tbl[cx.norm.slice_str(t.slice)] = cx.norm.poly(cx.c(st.value))
+    return alloc, tbl
+
+
+def tables_c02(run):
+    for key, n in (('base/transforms3d:trinv', 3), ('base/transforms2d:trinv2', 2)):
+        cx = Ctx(run, key)
+        r = _single_return_value(cx)
+        if r is None:
+            run.error('R16: %s: expected a single return' % key)
+            continue
+        rv = canon(cx.fi, r.value, inline=False)
+        if matches('inv(%s)' % cx.pname(0), rv) is not None:
+            run.holds(RULE, key, 'structured inverse', 'general matrix inverse', f=cx.f)
+            continue
+        if not isinstance(r.value, ast.Name):
+            run.error('R16: %s: return is neither a table variable nor inv(T)' % key)
+            continue
+        alloc, tbl = _assign_table(cx, r.value.id)
+        N = n + 1
+        if alloc is None or (matches('zeros((%d, %d), dtype=__)' % (N, N), alloc) is None and matches('zeros((%d, %d))' % (N, N), alloc) is None):
+            run.error('R16: %s: result is not allocated as fresh zeros((%d,%d))' % (key, N, N))
+            continue
+        R = 'P0[:%d, :%d]' % (n, n)
+        t = 'P0[:%d, %d]' % (n, n)
+        want = {':%d, :%d' % (n, n): '%s.T' % R, ':%d, %d' % (n, n): '-%s.T @ %s' % (R, t), '%d, %d' % (n, n): '1'}
+        ok = True
+        for k, w in want.items():
+            wp = Normaliser().poly(parse_expr(w))
+            if tbl.get(k) != wp:
+                ok = False
+                run.violation(RULE, key, 'inverse block [%s]' % k, 'block [%s] is %s; the structured inverse [[R^T, -R^T t],[0, 1]] requires %s'
+                              % (k, tbl.get(k), wp), f=cx.f)
+        for k in tbl:
+            if k not in want:
+                ok = False
+                run.violation(RULE, key, 'inverse block [%s]' % k, 'unexpected write into [%s]' % k, f=cx.f)
+        if ok:
+            run.holds(RULE, key, 'structured inverse', '[[R^T, -R^T t], [0, 1]] on a fresh zero matrix', f=cx.f)
+    check_routes(run, ROUTES_C02)
+    _prod(run)
+
+
+ROUTES_C02 = [
+    ('super_pose:SMPose.__mul__', 'composition multiplies left then right', ['left.__class__(left._op2(right, lambda x, y: x @ y), check=False)'], 'any'),
+    ('super_pose:SMPose.__truediv__', 'division composes with the inverse of the right operand', ['left.__class__(left._op2(right.inv(), lambda x, y: x @ y), check=False)'], 'any'),
+    ('super_pose:SMPose.__pow__', 'integer power by matrix_power on every element', ['self.__class__([matrix_power(x, n) for x in self.data], check=False)'], 'return'),
+    ('pose3d:SO3.inv', 'inverse of a rotation is its transpose', ['SO3(self.A.T, check=False)', 'SO3([x.T for x in self.A], check=False)'], 'return'),
+    ('pose3d:SE3.inv', 'SE3 inverse through trinv', ['SE3(trinv(self.A), check=False)', 'SE3([trinv(x) for x in self.A], check=False)'], 'return'),
+    ('pose2d:SO2.inv', 'inverse of a rotation is its transpose', ['SO2(self.A.T)', 'SO2([x.T for x in self.A])', 'SO2(self.A.T, check=False)', 'SO2([x.T for x in self.A], check=False)'], 'return'),
+    ('pose2d:SE2.inv', 'SE2 inverse [[R^T, -R^T t],[0,1]]', ['SE2(rt2tr(self.R.T, -self.R.T @ self.t))', 'SE2([rt2tr(x.R.T, -x.R.T @ x.t) for x in self])',
+                                                             'SE2(trinv2(self.A))', 'SE2([trinv2(x) for x in self.A])',
+                                                             'SE2(rt2tr(self.R.T, -self.R.T @ self.t), check=False)', 'SE2([rt2tr(x.R.T, -x.R.T @ x.t) for x in self], check=False)'], 'return'),
+    ('twist:SMTwist.inv', 'twist inverse is negation', ['self.__class__([-t for t in self.data])'], 'return'),
+    ('twist:Twist3.__mul__', 'twist composition through exp and log', ['Twist3(left.binop(right, lambda x, y: trlog(trexp(x) @ trexp(y), twist=True)))'], 'any'),
+    ('twist:Twist2.__mul__', 'twist composition through exp and log', ['Twist2(left.binop(right, lambda x, y: trlog2(trexp2(x) @ trexp2(y), twist=True)))'], 'any'),
+    ('twist:Twist3.__mul__', 'twist * SE3 composes exp(twist) with the pose', ['SE3(left.binop(right, lambda x, y: trexp(x) @ y), check=False)'], 'any'),
+    ('twist:Twist2.__mul__', 'twist * SE2 composes exp(twist) with the pose', ['SE2(left.binop(right, lambda x, y: trexp2(x) @ y), check=False)'], 'any'),
+    ('quaternion:UnitQuaternion.__truediv__', 'q1 / q2 = q1 * conj(q2)', ['UnitQuaternion(left.binop(right, lambda x, y: qqmul(x, conj(y))))'], 'any'),
+    ('quaternion:UnitQuaternion.__mul__', 'unit quaternion product', ['right.__class__(left.binop(right, qqmul))'], 'any'),
+    ('super_pose:SMPose.__imul__', '*= delegates', ['left.__mul__(right)'], 'return'),
+    ('quaternion:UnitQuaternion.__imul__', '*= delegates', ['left.__mul__(right)'], 'return'),
+]
+
+
+def _prod(run):
+    """prod folds left-to-right from the identity."""
+    f = run.prog.func('super_pose:SMPose.prod')
+    fi = FuncInfo.of(f)
+    s = f.selfname
+    body = body_nodoc(f.node)
+    ok_init = ok_loop = ok_ret = False
+    acc = None
+    for st in body:
+        if isinstance(st, ast.Assign) and isinstance(st.targets[0], ast.Name) and \
+                (matches('%s.__class__._identity()' % s, st.value) is not None or matches('%s._identity()' % s, st.value) is not None):
+            acc = st.targets[0].id
+            ok_init = True
+        if isinstance(st, ast.For) and acc and matches('%s.data' % s, st.iter) is not None and isinstance(st.target, ast.Name):
+            T = st.target.id
+            if len(st.body) == 1 and isinstance(st.body[0], ast.Assign) and matches('%s @ %s' % (acc, T), st.body[0].value) is not None \
+                    and isinstance(st.body[0].targets[0], ast.Name) and st.body[0].targets[0].id == acc:
+                ok_loop = True
+            elif len(st.body) == 1 and isinstance(st.body[0], ast.Assign) and matches('%s @ %s' % (T, acc), st.body[0].value) is not None:
+                run.violation('R15', f.key, 'fold order', 'prod multiplies each new element on the LEFT (T @ acc): the product is taken in reverse order', f=f, node=st)
+                return
+        if isinstance(st, ast.Return) and acc and (matches('%s.__class__(%s)' % (s, acc), st.value) is not None or
+                                                   matches('%s.__class__(%s, check=False)' % (s, acc), st.value) is not None):
+            ok_ret = True
+    if ok_init and ok_loop and ok_ret:
+        run.holds('R15', f.key, 'fold', 'product starts at the identity and multiplies the elements left to right', f=f)
+    else:
+        run.violation('R15', f.key, 'fold', 'prod is not `acc = identity; for T in self.data: acc = acc @ T; return cls(acc)` '
+                      '(identity start %s, left-to-right step %s, same-class result %s)' % (ok_init, ok_loop, ok_ret), f=f)
+    g = run.prog.func('twist:SMTwist.prod')
+    gi = FuncInfo.of(g)
+    txt = [canon(gi, st, inline=False) if isinstance(st, ast.expr) else st for st in body_nodoc(g.node)]
+    ok = False
+    for st in body_nodoc(g.node):
+        if isinstance(st, ast.For) and matches('self.data[1:]', st.iter) is not None and len(st.body) == 1 and \
+                isinstance(st.body[0], ast.Assign) and matches('twprod @ exp(%s)' % st.target.id, st.body[0].value) is not None:
+            ok = True
+    (run.holds if ok else run.violation)('R15', g.key, 'fold', 'twist product multiplies exp of each element left to right' if ok else
+                                         'twist prod is not a left-to-right fold of exp(tw)', f=g)
